@@ -63,7 +63,8 @@ Definition add_label (nm : lname) (st : lstate) : label * lstate :=
   ((nm, st nm), fun x => if lname_eqb x nm then S (st nm) else st x).
 
 (* ---------- abstract assembly lines ---------- *)
-Inductive reg := RAp | RFp | R0 | R1 | R2 | RDefeat.     (* state words addressed by label *)
+Inductive reg := RAp | RFp | R0 | R1 | R2 | RDefeat     (* state words addressed by label *)
+               | RGlob (g : nat).                         (* the word of the g-th int global: var_<name>_0 *)
 (* an AssemblyExpression: IntLiteral, State(LabelRef of a register word), LabelRef of a code label *)
 (* the labels of the runtime library the fragment refers to *)
 Inductive stdlab := LibWriteInt | LibWriteBool | LibDivZero | LibStackOverflow.
@@ -88,7 +89,8 @@ Inductive aline := ALabel (l : label) | AInstr (i : ains).
 (* ---------- source fragment ---------- *)
 (* int literal | i-th int local | binary arithmetic | unary - + *)
 Inductive unop := UNeg | UPos.
-Inductive iopd := OLit (z : Z) | OVar (i : nat) | OArith (op : src_arith) (x y : iopd) | OUn (u : unop) (x : iopd).
+Inductive iopd := OLit (z : Z) | OVar (i : nat) | OArith (op : src_arith) (x y : iopd) | OUn (u : unop) (x : iopd)
+               | OGlob (g : nat).            (* the g-th int global (not const): State(var_<name>_0), volatile *)
 Inductive bexpr :=
 | BLit (b : bool)
 | BVar (j : nat)                                       (* j-th bool local *)
@@ -134,9 +136,13 @@ Definition arith_instr (op : src_arith) : aop :=
 
 (* ---------- operands ---------- *)
 (* is_safe: PrimitiveValue or VariableLookup *)
-Definition is_safe (o : iopd) : bool := match o with OLit _ | OVar _ => true | _ => false end.
+Definition is_safe (o : iopd) : bool := match o with OLit _ | OVar _ | OGlob _ => true | _ => false end.
 Definition reg_eqb (a b : reg) : bool :=
-  match a, b with RAp, RAp | RFp, RFp | R0, R0 | R1, R1 | R2, R2 | RDefeat, RDefeat => true | _, _ => false end.
+  match a, b with
+  | RAp, RAp | RFp, RFp | R0, R0 | R1, R1 | R2, R2 | RDefeat, RDefeat => true
+  | RGlob g, RGlob h => Nat.eqb g h
+  | _, _ => false
+  end.
 (* `arg_in != asm.State(r_out)` *)
 Definition is_state_of (r : reg) (v : sym) : bool := match v with SReg r' => reg_eqb r r' | _ => false end.
 
@@ -167,6 +173,9 @@ Fixpoint eval_opd (E : env) (top : Z) (r_out : reg) (o : iopd) (keep : bool) : l
   match o with
   | OLit z => ([], BuImm z)
   | OVar i => ([], BuLocal (int_off E i))
+  | OGlob g =>                       (* VariableLookup of a non-const global: volatile, pushed if kept *)
+      if keep then ([AInstr (ASwso (SReg RFp) (SLit (- (top + wsize E))) (SReg (RGlob g)))], BuPushed (top + wsize E))
+      else ([], BuReg (RGlob g))
   | OArith op x y =>
       let (c1, lbub) := eval_opd E top R0 x (negb (is_safe y)) in
       let (c2, rbub) := eval_opd E (top_after top lbub) R1 y false in      (* get_expr_value(r1, y) *)
@@ -197,10 +206,12 @@ Definition compare_operands (E : env) (a b : iopd) : list aline * sym * sym :=
 (* temps_needed: the maximum number of words the lowering of an operand keeps pushed above the
    stack top at any moment (LowerBoolProofs.eval_opd_stores: every `swso [fp], -off, _` of the
    emitted code has top < off <= top + temps * w, and the bound is attained) *)
-Definition pushed (o : iopd) (keep : bool) : nat := if keep && negb (is_safe o) then 1%nat else 0%nat.
+Definition is_glob (o : iopd) : bool := match o with OGlob _ => true | _ => false end.
+Definition pushed (o : iopd) (keep : bool) : nat := if keep && (negb (is_safe o) || is_glob o) then 1%nat else 0%nat.
 Fixpoint temps (o : iopd) (keep : bool) : nat :=
   match o with
   | OLit _ | OVar _ => 0%nat
+  | OGlob _ => if keep then 1%nat else 0%nat
   | OArith _ x y =>
       let kx := negb (is_safe y) in
       Nat.max (Nat.max (temps x kx) (pushed x kx + temps y false)) (if keep then 1%nat else 0%nat)
@@ -352,7 +363,10 @@ Definition lname_str (n : lname) : string :=
   end.
 Definition label_str (l : label) : string := lname_str (fst l) ++ "_" ++ dec (Z.of_nat (snd l)).
 Definition reg_str (r : reg) : string :=
-  match r with RAp => "ap" | RFp => "fp" | R0 => "r0" | R1 => "r1" | R2 => "r2" | RDefeat => "defeat" end.
+  match r with
+  | RAp => "ap" | RFp => "fp" | R0 => "r0" | R1 => "r1" | R2 => "r2" | RDefeat => "defeat"
+  | RGlob g => "var_g" ++ dec (Z.of_nat g) ++ "_0"      (* the correspondence names the globals g0, g1, .. *)
+  end.
 Fixpoint bytes_str (l : list Z) : string :=
   match l with [] => EmptyString | b :: r => String (ascii_of_nat (Z.to_nat b)) (bytes_str r) end.
 Definition sym_str (s : sym) : string :=
@@ -406,7 +420,8 @@ Definition is_you_env (w : Z) (nparams : nat) : env :=
 
 (* ---------- two-pass label resolution at a base address ---------- *)
 Record regmap := mkregs { a_ap : Z; a_fp : Z; a_r0 : Z; a_r1 : Z; a_r2 : Z; a_defeat : Z;
-                          a_lib : Z }.      (* code address of the first instruction of the runtime library *)
+                          a_lib : Z;        (* code address of the first instruction of the runtime library *)
+                          a_glob : nat -> Z }.  (* state address of the g-th int global *)
 (* offsets of the library's labels, from the REGENERATED Gen/GenStdlib.v *)
 Definition std_off (x : stdlab) : Z :=
   match x with
@@ -414,11 +429,15 @@ Definition std_off (x : stdlab) : Z :=
   | LibStackOverflow => off_stack_overflow
   end.
 Definition regaddr (R : regmap) (r : reg) : Z :=
-  match r with RAp => a_ap R | RFp => a_fp R | R0 => a_r0 R | R1 => a_r1 R | R2 => a_r2 R | RDefeat => a_defeat R end.
+  match r with
+  | RAp => a_ap R | RFp => a_fp R | R0 => a_r0 R | R1 => a_r1 R | R2 => a_r2 R | RDefeat => a_defeat R
+  | RGlob g => a_glob R g
+  end.
 (* the state section hidc emits: ap, fp, r0, r1, r2 in this order, one word each; the `defeat`
    word (present when defeat is virtualised) sits after the stack, at an address d; the runtime
    library is appended to the code at address lib *)
-Definition hidc_regs (w d lib : Z) : regmap := mkregs 0 w (2 * w) (3 * w) (4 * w) d lib.
+Definition hidc_regs_g (w d lib : Z) (ga : nat -> Z) : regmap := mkregs 0 w (2 * w) (3 * w) (4 * w) d lib ga.
+Definition hidc_regs (w d lib : Z) : regmap := hidc_regs_g w d lib (fun _ => 0).
 
 Definition res_sym (R : regmap) (lab : label -> Z) (s : sym) : operand :=
   match s with
